@@ -4,6 +4,7 @@
 // reordering, corruption, truncation, extension, re-keying and nonce changes.
 #define ASIM_MAIN 1
 #include "core/asim.h"
+#include <sys/mman.h>
 #include "seams/simrng.h"
 #include <ascon/aead.h>
 #include <ascon/aead-masked.h>
@@ -450,6 +451,12 @@ struct ChannelWorld : World {
 
     void gen(Rng &r, Plan &pl, bool thorough) override
     {
+        if (getenv("ASIM_HUGE")) {
+            // one packet whose associated data is 2^32 + 11 bytes long (size_t lengths: "AD of every length"); a plan of
+            // this batch holds nothing else, each costs from half a minute to a few minutes
+            pl.add("hugead", {(int64_t)r.below(12), (int64_t)(r.next() >> 1)});
+            return;
+        }
         if (getenv("ASIM_TWIN")) pl.add("knob.twin", {1});
         pl.add("knob.page", {(int64_t)(r.below(4) == 0)});
         int nsess = 1 + (int)r.below(NSESS);
@@ -892,6 +899,50 @@ struct ChannelWorld : World {
         if (c.record) c.run->probe("nonce.datagram_sync");
     }
 
+    // Associated data of 2^32 + 11 bytes in a single call (one-shot, SIV, ISAP and masked families).  The data is an
+    // anonymous private mapping (zero pages; one page is committed when a byte is changed).  The packet made over it must
+    // be refused once one AD byte beyond the first 2^32 bytes' worth of "length mod 2^32" is changed.
+    static void do_hugead(Ctx &c, const Op &op)
+    {
+        static const int classes[4] = {ONE, SIV, ISAP, MASK};
+        int cls = classes[(op.u(0) % 12) / 3], alg = (int)(op.u(0) % 3);
+        size_t adlen = ((size_t)1 << 32) + 11;
+        uint8_t *ad = (uint8_t *)mmap(0, adlen + 4096, PROT_READ | PROT_WRITE, MAP_PRIVATE | MAP_ANONYMOUS | MAP_NORESERVE, -1, 0);
+        if (ad == MAP_FAILED) { if (c.record) c.run->probe("hugead.mmap_failed"); return; }
+        Bytes key = bytes_of(alg == A80 ? 20 : 16, op.u(1) ^ c.salt), m = bytes_of(13, op.u(1) ^ 5);
+        uint8_t n[16], ct[13 + 16], pt[13];
+        fill_bytes(n, 16, op.u(1) ^ 7);
+        size_t clen = 0, mlen = 0;
+        int fam = cls * 3 + alg;
+        int r;
+        if (cls == MASK) {
+            union { ascon_masked_key_128_t k128; ascon_masked_key_160_t k160; } mk;
+            if (alg == A80) ascon_masked_key_160_init(&mk.k160, key.data()); else ascon_masked_key_128_init(&mk.k128, key.data());
+            if (alg == A128) ascon128_masked_aead_encrypt(ct, &clen, m.data(), 13, ad, adlen, n, &mk.k128);
+            else if (alg == A128A) ascon128a_masked_aead_encrypt(ct, &clen, m.data(), 13, ad, adlen, n, &mk.k128);
+            else ascon80pq_masked_aead_encrypt(ct, &clen, m.data(), 13, ad, adlen, n, &mk.k160);
+            ad[12345] ^= 0x10;
+            if (alg == A128) r = ascon128_masked_aead_decrypt(pt, &mlen, ct, clen, ad, adlen, n, &mk.k128);
+            else if (alg == A128A) r = ascon128a_masked_aead_decrypt(pt, &mlen, ct, clen, ad, adlen, n, &mk.k128);
+            else r = ascon80pq_masked_aead_decrypt(pt, &mlen, ct, clen, ad, adlen, n, &mk.k160);
+            if (alg == A80) ascon_masked_key_160_free(&mk.k160); else ascon_masked_key_128_free(&mk.k128);
+        } else {
+            c_encrypt(cls, alg, ct, &clen, m.data(), 13, ad, adlen, n, key.data());
+            ad[12345] ^= 0x10;
+            r = c_decrypt(cls, alg, pt, &mlen, ct, clen, ad, adlen, n, key.data());
+        }
+        munmap(ad, adlen + 4096);
+        if (c.record) {
+            c.run->fold(ct, 29);
+            c.run->fold_u64((uint64_t)(int64_t)(r < 0 ? -1 : 0));
+            c.run->fault("len.associated_data_of_4GiB_plus");
+            c.run->state(fmt("hugead/%d", fam));
+            if (clen != 29) c.run->violation("C02", "encrypt_length", fam_name(fam) + ".huge_ad", fmt("reported clen=%zu for mlen=13", clen));
+            if (r >= 0) c.run->violation("C02", "accepts_forgery", fam_name(fam) + ".huge_ad", fmt("associated data of 2^32+11 bytes: a packet is accepted after AD byte 12345 was changed (result %d)", r));
+            else c.run->probe("hugead.rejected");
+        }
+    }
+
     // Bit-flip storm: one packet re-delivered once per single-bit flip of ct||tag / ad / nonce / key,
     // through fresh receiver objects (the stateful session object is not disturbed).
     static void do_storm(Ctx &c, const Op &op)
@@ -952,6 +1003,7 @@ struct ChannelWorld : World {
             else if (op.name == "nonce") do_nonce(c, op);
             else if (op.name == "sync") do_sync(c, op);
             else if (op.name == "storm") do_storm(c, op);
+            else if (op.name == "hugead") do_hugead(c, op);
             else if (op.name == "close") do_close(c, (int)(op.u(0) % NSESS));
             // set by ep_key_objects when a re-randomised masked key no longer extracts to its key: reported for the operation that keyed it
             if (g_mask_extract_bad) { if (c.record) c.run->violation("C10", "mask_then_extract_returns_key", "masked_key@" + op.name, "a masked key (freshly made or re-randomised) does not extract to the key it was made from"); g_mask_extract_bad = false; }
